@@ -196,7 +196,9 @@ package packfile
 // stands exactly at offset when the copy starts (call-site obligation on the
 // first CopyBufferPool), which rests on the loop invariant that the position
 // counter basePos equals the reader's real position, including after the base
-// was reopened for a backward seek.
+// was reopened for a backward seek. "None produces partial output
+// successfully": every error path closes the pipe with a real error -- never
+// with nil or io.EOF, which the consumer reads as a clean end of the target.
 //gvc:func ReaderFromDelta
 //gvc:  props C06
 //gvc:  theory int
@@ -206,6 +208,7 @@ package packfile
 //gvc:  loop 1 invariant track: baseBuf != nil && basePos == baseBuf.#pos && baseBuf.#data == base.#content && baseBuf != deltaBuf
 //gvc:  loop 2 invariant seek: baseBuf != nil && basePos == baseBuf.#pos && baseBuf.#pos + discard == offset && baseBuf.#data == base.#content && baseBuf != deltaBuf
 //gvc:  loop 3 invariant seek: baseBuf != nil && basePos == baseBuf.#pos && baseBuf.#pos + discard == offset && baseBuf.#data == base.#content && baseBuf != deltaBuf
+//gvc:  sink CloseWithError requires failure: arg0 != nil && arg0 != io.EOF
 //gvc:  sink CopyBufferPool#1 requires source: field(arg1, "io.LimitedReader.R") == baseBuf && baseBuf.#pos == offset && field(arg1, "io.LimitedReader.N") == sz && baseBuf.#data == base.#content
 //gvc:end
 
